@@ -82,6 +82,39 @@ def _with_target(F, f, t):
     return None
 
 
+CALL_TRAITS = ("std::ops::FnOnce::call_once", "std::ops::FnMut::call_mut", "std::ops::Fn::call")
+
+
+def _closure_call_target(F, f, t):
+    """`FnOnce::call_once(c, args)` where c is (a copy of) a closure of this crate that is not in the inventory"""
+    if strip_generics(t.get("callee") or "") not in CALL_TRAITS or not t["args"]:
+        return None
+    a = t["args"][0]
+    seen = set()
+    while True:
+        if a["k"] == "c":
+            if "closure" in a and a["closure"] in F.fns:
+                return F.fns[a["closure"]], t["args"][0]
+            return None
+        l = a["pl"]["l"]
+        if a["pl"].get("p") or l in seen:
+            return None
+        seen.add(l)
+        ds = [d for d in f.defs().get(l, []) if d[1] is not None and not f.is_cleanup(d[0])]
+        if len(ds) != 1:
+            return None
+        rv = ds[0][2]["rv"]
+        if rv["r"] == "agg" and rv["kind"].get("closure") in F.fns:
+            return F.fns[rv["kind"]["closure"]], t["args"][0]
+        if rv["r"] in ("use", "cast"):
+            a = rv["a"][0]
+            continue
+        if rv["r"] in ("ref", "raw") and not rv["pl"].get("p"):
+            a = {"k": "cp", "pl": rv["pl"]}
+            continue
+        return None
+
+
 def is_anchor(g):
     return any(strip_generics(callee_name(t)) in ANCHOR_SYSCALLS for _, t in g.calls(live_only=False))
 
@@ -92,8 +125,6 @@ def inlinable(F, g):
     if g.kind == "Closure":
         return True
     if g.impl_trait:
-        return False
-    if "Public" in (g.vis or ""):
         return False
     if is_anchor(g):
         return False
@@ -208,10 +239,13 @@ def inline_function(F, f, cm, done, depth=0):
             if w:
                 g, mode, wop = w
                 mode = "with-" + mode
+        if g is None:
+            # a closure parameter invoked through FnOnce/FnMut/Fn: resolvable once the helper that received it is inlined
+            cc = _closure_call_target(F, Fn(raw, F), t)
+            if cc:
+                g, mode, wop = cc[0], "closure-call", cc[1]
         if g is None or g.path == f.path or not inlinable(F, g):
             continue
-        if cm.get(g.path, set()) - {f.path}:
-            continue          # more than one caller function
         if depth >= MAX_DEPTH:
             continue
         graw = inline_function(F, g, cm, done, depth + 1)
@@ -229,6 +263,14 @@ def inline_function(F, f, cm, done, depth=0):
         binds = []
         if mode == "call":
             actuals = list(t["args"])
+        elif mode == "closure-call":
+            # call_once(closure, (a, b, ..)): closure body params are (env, a, b, ..)
+            actuals = [t["args"][0]]
+            tup = t["args"][1] if len(t["args"]) > 1 else None
+            for j in range(graw["argc"] - 1):
+                if tup is not None and tup["k"] in ("cp", "mv"):
+                    pl = {"l": tup["pl"]["l"], "p": list(tup["pl"].get("p", [])) + [{"f": j, "n": str(j), "t": ""}]}
+                    actuals.append({"k": "mv", "pl": pl})
         elif mode == "with-closure":
             key_ty = t["args"][0].get("t", "") if t["args"][0]["k"] == "c" else ""
             tls = {"k": "c", "t": key_ty, "static": "tls:" + _tls_type(t, key_ty), "s": "tls"}
@@ -275,7 +317,10 @@ class InlinedFacts:
         # helpers that were inlined into their only caller are represented there; they are not analysed on their own
         self.consumed = set()
         for lst in self.inlined_into.values():
-            self.consumed |= set(lst)
+            for g in lst:
+                gf = F.fns.get(g)
+                if gf is not None and (gf.kind == "Closure" or "Public" not in (gf.vis or "")):
+                    self.consumed.add(g)
         self.fns = {p: f for p, f in allfns.items() if p not in self.consumed}
         self.all_fns = allfns
 
